@@ -37,9 +37,25 @@ pub open spec fn no_comment_before(s: Seq<char>, n: int) -> bool {
 pub open spec fn cut_of(s: Seq<char>, i: int) -> int {
     if s[i] == '/' { i - 1 } else { i }
 }
-// `index` is the cut for the first comment of s
+// `index` is the cut for the first comment of s: the comment starts at index (`#`, `%`)
+// or at index + 1 (the second `/` of `//`)
 pub open spec fn is_first_cut(s: Seq<char>, index: int) -> bool {
-    exists|i: int| #[trigger] comment_at(s, i) && no_comment_before(s, i) && index == cut_of(s, i)
+    ||| (comment_at(s, index) && s[index] != '/' && no_comment_before(s, index))
+    ||| (comment_at(s, index + 1) && s[index + 1] == '/' && no_comment_before(s, index + 1))
+}
+
+pub proof fn lemma_first_cut_unique(s: Seq<char>, index: int)
+    requires is_first_cut(s, index),
+    ensures
+        !no_comment_before(s, s.len() as int),
+        forall|i: int| #[trigger] comment_at(s, i) && no_comment_before(s, i) ==> cut_of(s, i) == index,
+{
+    let i0 = if comment_at(s, index) && s[index] != '/' && no_comment_before(s, index) { index } else { index + 1 };
+    assert(comment_at(s, i0) && no_comment_before(s, i0) && cut_of(s, i0) == index);
+    assert forall|i: int| #[trigger] comment_at(s, i) && no_comment_before(s, i) implies cut_of(s, i) == index by {
+        if i < i0 { assert(!comment_at(s, i)); }
+        if i0 < i { assert(!comment_at(s, i0)); }
+    }
 }
 
 // --- separate_rules ----------------------------------------------------------------
@@ -89,3 +105,29 @@ pub open spec fn segmented(s: Seq<char>, rules: Seq<Seq<char>>, consumed: int) -
 }
 
 pub open spec fn views(v: Seq<String>) -> Seq<Seq<char>> { v.map(|k: int, x: String| x@) }
+
+pub proof fn lemma_quotes_bound(s: Seq<char>, i: int)
+    requires 0 <= i <= s.len(),
+    ensures 0 <= nquotes(s, i) <= i,
+    decreases i,
+{
+    if i > 0 { lemma_quotes_bound(s, i - 1); }
+}
+
+// total length of the returned rule strings
+pub open spec fn total_len(rules: Seq<Seq<char>>) -> int
+    decreases rules.len(),
+{
+    if rules.len() == 0 { 0 } else { total_len(rules.drop_last()) + rules[rules.len() - 1].len() }
+}
+
+pub proof fn lemma_segmented_len(s: Seq<char>, rules: Seq<Seq<char>>, consumed: int)
+    requires segmented(s, rules, consumed),
+    ensures consumed == total_len(rules),
+    decreases rules.len(),
+{
+    if rules.len() > 0 {
+        let last = rules[rules.len() - 1];
+        lemma_segmented_len(s, rules.drop_last(), consumed - last.len());
+    }
+}
